@@ -823,6 +823,16 @@ func checkSaltedHash(c *Ctx, rule string) {
 						}
 					}
 				}
+				// the store may sit in a private part that is handed the passphrase (markUnlocked(passphrase)): the
+				// passphrase then is the argument at the part's only call site, and the key derivation it must agree with
+				// is in that caller
+				searchFn := fn
+				if r := p.resolveParam(passArg); r != passArg {
+					passArg = r
+					if pf := valueParent(r); pf != nil {
+						searchFn = pf
+					}
+				}
 				// identify the passphrase variable: a parameter, or the spill slot of an address-taken parameter
 				var passVar ssa.Value
 				switch x := passArg.(type) {
@@ -835,11 +845,11 @@ func checkSaltedHash(c *Ctx, rule string) {
 				}
 				if passVar != nil {
 					for _, name := range []string{"DeriveKey", "newSecretKey", "NewSecretKey"} {
-						if fn.Name() == "ChangePassphrase" && name == "DeriveKey" {
+						if searchFn.Name() == "ChangePassphrase" && name == "DeriveKey" {
 							// there the NEW master key is the one created by newSecretKey
 							continue
 						}
-						for _, dk := range callsNamed(fn, name) {
+						for _, dk := range callsNamed(searchFn, name) {
 							for _, a := range dk.Call.Args {
 								if a == passVar {
 									passOK = true
